@@ -34,6 +34,7 @@ type Program struct {
 	specFuns  map[string]*SpecFun      // "cafs.H"
 	externs   map[string]*FuncContract // assumed contracts on dependencies / interface methods, key e.g. "storage.Store.Put" or "io.ReadAll"
 	contractFiles []string
+	regexClauses  []*RegexClause
 
 	mods     map[*ssa.Function]*ModSet
 	implCache map[string][]*ssa.Function
